@@ -156,6 +156,8 @@ func runC13(e *core.Env) {
 			if today.Days() >= ref.MaxDay {
 				today = ref.DateFromDays(ref.MaxDay - 1)
 			}
+		case 2:
+			today = obs.DSTDates[r.Intn(len(obs.DSTDates))] // 23/25-hour days: --yesterday/--tomorrow must be calendar days
 		default:
 			y := r.Range(1990, 2040)
 			m := r.Range(1, 12)
